@@ -25,7 +25,13 @@ package txlocator
 //@ spec chainDef(t) = forall s str :: tr_chain(ref(t), s) == ((trOwn(t, s) && int64(id_ts(s)) < t.list.ts + t.list.th) || parentChain(t, s))
 // every id a tracker records lies in the validity window of its block (checked before Add)
 //@ spec trWin(t) = t.list != nil && listSane(t.list) && (forall s str :: trOwn(t, s) ==> int64(id_ts(s)) <= t.list.ts + t.list.th)
-//@ spec trOK() = forall x ptr_tracker :: x != nil ==> chainDef(x) && trWin(x) && mgrOK(x.manager) && 0 <= x.list.group && x.list.group < 2 && (x.parent != nil ==> x.parent.list.group == x.list.group)
+// tr_open(t): tracker t is still being filled by Add (its own id set is changing); such a tracker
+// is never an ancestor of a tracker that is consulted.
+//@ smt all (declare-fun tr_open (Int) Bool)
+//@ spec trLinks(t) = mgrOK(t.manager) && t.list != nil && 0 <= t.list.group && t.list.group < 2 && (t.parent != nil ==> !tr_open(ref(t.parent)) && t.parent.list.group == t.list.group)
+//@ spec trOK() = forall x ptr_tracker :: x != nil && !tr_open(ref(x)) ==> chainDef(x) && trWin(x) && trLinks(x)
+// a transaction id is a hash of its content, which includes the timestamp
+//@ axiom id_determines_ts int : forall x iface :: id_ts(tx_idstr(x)) == tx_ts(x)
 //@ spec listSane(l) = -0x4000000000000000 < l.ts && l.ts < 0x4000000000000000 && 0 <= l.th && l.th < 0x4000000000000000
 
 // id_group(s): the transaction group (normal / patch) of the transaction with id s.
@@ -54,11 +60,30 @@ package txlocator
 
 //@ func (t *tracker) parentHasInLock(id, ts) (has, err)
 //@   pure
-//@   requires t != nil && trOK() && ts == int64(id_ts(str(id))) && id_group(str(id)) == t.list.group
+//@   requires t != nil && trOK() && trLinks(t) && ts == int64(id_ts(str(id))) && id_group(str(id)) == t.list.group
 //@   ensures [chain] err == nil ==> has == parentChain(t, str(id))
 
 //@ func (t *tracker) Has(id, ts) (has, err)
 //@   pure
-//@   requires t != nil && trOK() && ts == int64(id_ts(str(id))) && id_group(str(id)) == t.list.group
+//@   requires t != nil && !tr_open(ref(t)) && trOK() && ts == int64(id_ts(str(id))) && id_group(str(id)) == t.list.group
 //@   ensures [chain] err == nil ==> has == tr_chain(ref(t), str(id))
 //@   ensures [boundary] err == nil && trOwn(t, str(id)) ==> has
+
+//@ func allocLocator(list, id, idx) (loc)
+//@   trusted
+//@   modifies all(locator.list), all(locator.id), all(locator.offset)
+//@   ensures loc != nil && loc.id == id
+
+// tracker.Add: an id is recorded only after it was looked up, with the transaction's own timestamp,
+// in the tracker itself and (unless forced) in the ancestors and the committed set.
+//@ func (t *tracker) Add(list, force) (cnt, err)
+//@   nosafety
+//@   use id_determines_ts
+//@   requires t != nil && tr_open(ref(t)) && trOK() && trLinks(t) && list != nil
+//@   requires forall x ptr_tracker :: x != nil && x != t ==> x.locators != t.locators
+//@   requires forall tx iface :: id_group(tx_idstr(tx)) == t.list.group
+//@   requires forall m ptr_manager :: m != nil ==> m.locators != t.locators
+//@   modifies t.locators, t.locators[*], all(txList.head), all(locator.list), all(locator.id), all(locator.offset), all(locator.next), allcells(ptr_locator), allelems(ptr_locator)
+//@   callpre parentHasInLock: ts == int64(id_ts(str(id)))
+//@   callpre allocLocator: !has(t.locators, id) && (force || !parentChain(t, id))
+//@   loop 0: invariant trOK() && trLinks(t) && t.locators == old(t.locators) && t.locators != nil && locators == t.locators && t.list == old(t.list) && t.parent == old(t.parent) && t.manager == old(t.manager)
